@@ -676,6 +676,7 @@ type CountsParams struct {
 	HugeAt     []int   // documents whose field "a" also lists term "big"
 	HugeFreq   []int64 // with these frequencies
 	OtherField bool    // the remaining documents carry field "b"
+	Instances  int     // >0: document 0 carries the field as this many separate instances (one term each): 255 / 256 / 257 / 512 / 1000
 	ManyLocs   int     // >0: term "many" of field "a" has this many locations in document 0 (spread over two instances of the field) and one location in the last document: location counts around and beyond 2^16
 	NameLen    int     // >1: the field is named "a" + padding up to this length (name lengths around 128: the width boundary of the name-length varint, and of any fixed-size window over a field record)
 }
@@ -692,6 +693,7 @@ func GenCounts(t *rapid.T) CountsParams {
 	}
 	p.OtherField = rapid.Bool().Draw(t, "otherField")
 	p.ManyLocs = rapid.SampledFrom([]int{0, 0, 0, 255, 256, 65535, 65536, 70000}).Draw(t, "manyLocs")
+	p.Instances = rapid.SampledFrom([]int{0, 0, 255, 256, 257, 512, 1000}).Draw(t, "instances")
 	if rapid.Bool().Draw(t, "longName") {
 		p.NameLen = rapid.SampledFrom([]int{100, 110, 113, 115, 118, 120, 121, 122, 123, 124, 125, 126, 127, 128, 129, 200, 255, 256, 257, 16383, 16384, 65535, 65536, 70005}).Draw(t, "nameLen")
 	}
@@ -727,6 +729,9 @@ func (p CountsParams) Batch(sc *Scenario) Batch {
 			}
 		}
 		b[i].Fields = append(b[i].Fields, f)
+	}
+	for k := 1; k < p.Instances; k++ { // document 0 already carries one instance
+		b[0].Fields = append(b[0].Fields, Field{Name: p.FieldName(), Len: 1, DV: sc.Schema["a"] == dvAlways, Terms: []Term{{T: fmt.Sprintf("i%d", k%4), Freq: 1}}})
 	}
 	if p.ManyLocs > 0 {
 		mk := func(n, base int) Field {
